@@ -1,3 +1,4 @@
 import DefconModel.Drivers.Notify
 import DefconModel.Drivers.Layer
 import DefconModel.Drivers.GlyphOrder
+import DefconModel.Drivers.Kern
